@@ -2,6 +2,7 @@
 import quantile_rules as Q
 import cowrite
 import generic_lints
+import predicates
 import triggers
 import coin_rules
 
@@ -15,6 +16,7 @@ def run(facts, tier):
         ("compaction triggers", Q.compaction_triggers, 2, "compaction triggers include the capacity boundary"),
         ("levels grow only", lambda fa: [o for o in Q.level_growth(fa) if not o["key"].startswith("density_sketch")], 4, "the vector of levels / compactors only grows in mutators; no resize/erase/clear can drop levels with their items"),
         ("couplings", lambda fa: cowrite.obligations(fa, ['kll_sketch', 'req_sketch', 'req_compactor', 'quantiles_sketch']), 10, "fields that every mutator updates together (counters, extremes, cached values) are still updated together"),
+        ("emptiness predicate support", lambda fa: predicates.obligations(fa, ['kll_sketch','req_sketch','quantiles_sketch']), 3, "the emptiness predicate still consults every field it depended on in the reviewed tree (spec/predicates.json)"),
         ("tautologies", lambda fa: generic_lints.tautologies(fa, ('kll/', 'req/', 'quantiles/', 'common/')), 2, "no comparison / assignment / min-max with two identical operands, no if-else with identical arms"),
         ("duplicate operands", lambda fa: generic_lints.duplicate_conjuncts(fa, ('kll/', 'req/', 'quantiles/', 'common/')), 2, "no logical chain tests the same operand twice (copy-paste of the wrong peer)"),
         ("req merge runs", coin_rules.req_merge_ranges, 2, "REQ compactor merge hands std::inplace_merge exactly the old run and the appended run in both buffer layouts (exact pointer arithmetic with hra_ fixed)"),
